@@ -308,3 +308,67 @@ Theorem C04_relocated_rel32_site32 : forall base asize atoff reserved last es r 
   forall k, 0 <= k < 4 -> cell (patch_all data es (rr_outs r)) (e_off e + e_lead e + k) = cell (le_bytes 4 (o_word o)) k.
 Proof. exact relocated_rel32_site32. Qed.
 Print Assumptions C04_relocated_rel32_site32.
+
+(* ---- round 5: the installed image at ANY relocation site of C10's JitRuntime::_add model, stated through C10's `site_entry` only (no
+   constructor of their site type is named, so new site kinds are covered as they appear): the bytes installed at the value word of the
+   i-th site are the little-endian word C04's relocate_entry computed for C10's entry of that site ---- *)
+Theorem C04_installed_site_word : forall st calls base fill final img h2 i c,
+  wf_holder (jh st) -> data_len_ok (jh st) ->
+  (forall h1, flatten (jh st) = (EOk, h1) -> NoDup (map sid h1) /\ (forall s, In s h1 -> 0 <= sid s)) ->
+  jtab st <> Some 0 -> (forall h off, sites_disjoint (map (site_entry h off) calls)) ->
+  jit_add_reloc st calls base fill = (JOk, final, img, h2) ->
+  nth_error calls i = Some c ->
+  exists h1 text atoff s1 s2 o,
+    flatten (jh st) = (EOk, h1) /\ by_id h1 0 = Some text /\
+    let e := site_entry h1 (soff text) c in
+    relocate_entry base REG_SIZE atoff s1 e = inl (o, s2) /\
+    (forall k, 0 <= k < vsize (e_fmt e) -> soff text + e_off e + e_lead e + k < final ->
+       cell (flat img) (soff text + e_off e + e_lead e + k) = cell (le_bytes (Z.to_nat (vsize (e_fmt e))) (o_word o)) k).
+Proof. exact installed_site_word. Qed.
+Print Assumptions C04_installed_site_word.
+
+(* an expression site (embed_label_delta across sections, RelocType::kExpression - C10's SExpr sites): the n installed bytes decode
+   (signed) to the difference of the two flattened label positions, which fits; a successful _add has both sides bound *)
+Theorem C04_installed_expr_site : forall st calls base fill final img h2 i c n,
+  wf_holder (jh st) -> data_len_ok (jh st) ->
+  (forall h1, flatten (jh st) = (EOk, h1) -> NoDup (map sid h1) /\ (forall s, In s h1 -> 0 <= sid s)) ->
+  jtab st <> Some 0 -> (forall h off, sites_disjoint (map (site_entry h off) calls)) ->
+  jit_add_reloc st calls base fill = (JOk, final, img, h2) ->
+  nth_error calls i = Some c ->
+  (forall h off, exists a b, e_kind (site_entry h off c) = RExpr a b) ->
+  (forall h off, e_fmt (site_entry h off c) = sfmt n /\ e_old (site_entry h off c) = 0) -> n = 1 \/ n = 2 \/ n = 4 \/ n = 8 ->
+  exists h1 text pl pb w,
+    flatten (jh st) = (EOk, h1) /\ by_id h1 0 = Some text /\
+    let e := site_entry h1 (soff text) c in
+    e_kind e = RExpr (Some pl) (Some pb) /\
+    decode_signed (sfmt n) w = to_i64 (wrap 64 (pl - pb)) /\ - 2 ^ (8 * n - 1) <= to_i64 (wrap 64 (pl - pb)) < 2 ^ (8 * n - 1) /\
+    (forall k, 0 <= k < n -> soff text + e_off e + e_lead e + k < final ->
+       cell (flat img) (soff text + e_off e + e_lead e + k) = cell (le_bytes (Z.to_nat n) w) k).
+Proof. exact installed_expr_site. Qed.
+Print Assumptions C04_installed_expr_site.
+
+(* an embedded label address of any width (RelToAbs stored as an n-byte unsigned value; C10's SAbs is n = 8, see
+   C04_c10_abs_site_is_abs_entry): the n installed bytes are base + target section offset + payload, and that address fits *)
+Theorem C04_installed_abs_entry : forall st calls base fill final img h2 i c n,
+  wf_holder (jh st) -> data_len_ok (jh st) ->
+  (forall h1, flatten (jh st) = (EOk, h1) -> NoDup (map sid h1) /\ (forall s, In s h1 -> 0 <= sid s)) ->
+  jtab st <> Some 0 -> (forall h off, sites_disjoint (map (site_entry h off) calls)) ->
+  jit_add_reloc st calls base fill = (JOk, final, img, h2) ->
+  nth_error calls i = Some c ->
+  (forall h off, exists a, e_kind (site_entry h off c) = RRelToAbs a) ->
+  (forall h off, e_fmt (site_entry h off c) = ufmt n /\ e_old (site_entry h off c) = 0) -> n = 1 \/ n = 2 \/ n = 4 \/ n = 8 ->
+  exists h1 text toff,
+    flatten (jh st) = (EOk, h1) /\ by_id h1 0 = Some text /\
+    let e := site_entry h1 (soff text) c in
+    let w := (e_payload e + base + toff) mod 2 ^ 64 in
+    e_kind e = RRelToAbs (Some toff) /\ w < 2 ^ (8 * n) /\
+    (forall k, 0 <= k < n -> soff text + e_off e + e_lead e + k < final ->
+       cell (flat img) (soff text + e_off e + e_lead e + k) = cell (le_bytes (Z.to_nat n) w) k).
+Proof. exact installed_abs_entry. Qed.
+Print Assumptions C04_installed_abs_entry.
+
+Theorem C04_c10_abs_site_is_abs_entry : forall pos target loff,
+  (forall h off, exists a, e_kind (site_entry h off (SAbs pos target loff)) = RRelToAbs a) /\
+  (forall h off, e_fmt (site_entry h off (SAbs pos target loff)) = ufmt 8 /\ e_old (site_entry h off (SAbs pos target loff)) = 0).
+Proof. exact c10_abs_site_is_abs_entry. Qed.
+Print Assumptions C04_c10_abs_site_is_abs_entry.
